@@ -343,8 +343,10 @@ var tmpl = template.Must(template.New("type1").Funcs(template.FuncMap{
 		return x.PS()
 	},
 	"E": writeEncoding,
+	// C makes a string safe for use inside a one-line comment.
+	"C": strings.NewReplacer("\n", " ", "\r", " ", "\f", " ").Replace,
 }).Parse(`{{define "SectionA" -}}
-%!FontType1-1.1: {{.FontName}} {{.Version}}
+%!FontType1-1.1: {{.FontName}} {{.Version|C}}
 {{if not .CreationDate.IsZero}}%%CreationDate: {{.CreationDate.Format "2006-01-02 15:04:05 -0700 MST"}}
 {{end -}}
 10 dict begin
